@@ -374,7 +374,8 @@ type MsgDesc struct {
 }
 
 var msgNames = []string{"", "AreYouThere", "OnLineData", "ERN", "名前", "a.b", "x/y", "[x]", "Wafer#1", "né", "S", "H->", "\xff\xfe", "<", ".",
-	"Are\x00You", "esc\x1bname", "del\x7f", "c1\u009f", "\x01", "zw\u200bsp", "bom\ufeff"}
+	"Are\x00You", "esc\x1bname", "del\x7f", "c1\u009f", "\x01", "zw\u200bsp", "bom\ufeff",
+	"Yield%", "100%Done", "50%%", "%d", "%s%v", "%!v(MISSING)", "a%[1]d", "\\n", "{0}"}
 
 func genMsgDesc(r *rand.Rand, item *Node, pbad float64) *MsgDesc {
 	m := &MsgDesc{Item: item}
@@ -418,6 +419,19 @@ func genMsgDesc(r *rand.Rand, item *Node, pbad float64) *MsgDesc {
 		}
 	}
 	return m
+}
+
+// sessSteps: the SetSessionIDAndSystemBytes step of a program; one time in three the message is
+// first stamped with the same session id and other system bytes (a re-used template): the last
+// stamp is the one that counts.
+func (m *MsgDesc) sessSteps(r *rand.Rand) string {
+	s := fmt.Sprintf("sess %d %s", m.Sid, hx(m.Sys))
+	if r.Intn(3) == 0 && len(m.Sys) > 0 {
+		other := append([]byte{}, m.Sys...)
+		other[r.Intn(len(other))] ^= byte(1 + r.Intn(255))
+		return fmt.Sprintf("sess %d %s | %s", m.Sid, hx(other), s)
+	}
+	return s
 }
 
 func (m *MsgDesc) newStep() string {
